@@ -1396,6 +1396,10 @@ class Simplifier:
         # since we already remove COALESCE at the top of this function.
         this: exp.Expr = coalesce if coalesce.expressions else coalesce.this
 
+        # `NOT x IS NULL` parses back as NOT (x IS NULL): a NOT subject of the IS NULL guards has to stay grouped
+        if isinstance(this, exp.Not):
+            this = exp.paren(this.copy(), copy=False)
+
         # This expression is more complex than when we started, but it will get simplified further
         return exp.paren(
             exp.or_(
